@@ -344,6 +344,30 @@ def run_c04(res, tier, seed):
             res.add_violation("C04/as-after-negative-literal",
                               "`-1 as b` groups as -(1 as b): the `as` check runs inside the recursive pattern() of the prefix minus",
                               {"text": t, "impl": o[0][:600], "expected": gen_gleam.shape(m)[:600]})
+    # three-way: the shallow Pratt model (subject of pratt_roundtrip) vs the implementation on operator strings
+    kinds = kind_table()
+    preqs, pexp = [], []
+    strings = list(itertools.product(ops, repeat=2)) + [tuple(rng.choice(ops) for _ in range(rng.randrange(3, 7))) for _ in range(800 if tier == "quick" else 20000)]
+    for c in strings:
+        toks, text = [], []
+        names = "abcdefgh"
+        for i in range(len(c) + 1):
+            pre = rng.choice(["", "", "", "-", "!"]) if i > 0 or rng.random() < 0.5 else ""
+            if pre:
+                toks.append(f"o:{kinds[OP_KIND[pre]]}:{pre}"); text.append(pre)
+            toks.append(f"a:{names[i]}"); text.append(names[i])
+            if i < len(c):
+                toks.append(f"o:{kinds[OP_KIND[c[i]]]}:{c[i]}"); text.append(c[i])
+        preqs.append("pratt\t" + " ".join(toks))
+        pexp.append("fn f() { " + " ".join(text) + " }")
+    po, _ = common.run_lines(common.DRIVER_BIN, preqs)
+    so2, _ = common.run_lines(common.HARNESS_BIN, ["shape\t" + hexs(t) for t in pexp])
+    res.cov["evaluations"] += len(preqs)
+    res.cov["pratt_three_way"] = len(preqs)
+    for rq, a, b, t in zip(preqs, po, so2, pexp):
+        want = "errs=0 (SOURCE_FILE (FUNCTION 'fn' (NAME 'f') (PARAM_LIST '(' ')') (BLOCK '{' (STMT_EXPR " + a + ") '}')))"
+        if b != want:
+            res.disagreements.append((t, b, a))
     # model-vs-implementation on the same programs (generated DSL program vs parse_module)
     reqs = ["parse\t" + hexs(t) for t in texts[: (1500 if tier == "quick" else 20000)]]
     io, mo = common.run_both_chunked(reqs)
@@ -361,7 +385,22 @@ def run_c04(res, tier, seed):
     res.cov["samples"] += [{"text": texts[i][:200], "shape": so[i][:300]} for i in (3, len(texts) - 2)]
 
 
-PROOF_MODULES = {"C01": ["Glas.Props.C01"], "C02": ["Glas.Props.C02"], "C03": ["Glas.Props.C03"], "C04": ["Glas.Props.C04"]}
+OP_KIND = {"||": "VBAR_VBAR", "&&": "AMPER_AMPER", "==": "EQ_EQ", "!=": "NOT_EQ", "<": "LESS", "<=": "LESS_EQ", "<.": "LESS_DOT",
+           "<=.": "LESS_EQ_DOT", ">": "GREATER", ">=": "GREATER_EQ", ">.": "GREATER_DOT", ">=.": "GREATER_EQ_DOT", "<>": "LT_GT",
+           "|>": "VBAR_GT", "+": "PLUS", "-": "MINUS", "+.": "PLUS_DOT", "-.": "MINUS_DOT", "*": "STAR", "/": "SLASH",
+           "*.": "STAR_DOT", "/.": "SLASH_DOT", "%": "PERCENT", "!": "BANG"}
+
+
+def kind_table():
+    t = {}
+    for l in open(os.path.join(common.LEAN, "Glas", "Gen", "Kind.lean")):
+        m = re.match(r"def K_(\w+) : Nat := (\d+)", l)
+        if m:
+            t[m.group(1)] = int(m.group(2))
+    return t
+
+
+PROOF_MODULES = {"C01": ["Glas.Props.C01"], "C02": ["Glas.Props.C02"], "C03": ["Glas.Props.C03"], "C04": ["Glas.Props.C04", "Glas.Props.C04Pratt"]}
 
 
 def run(prop, res, tier, seed):
@@ -390,7 +429,7 @@ def run(prop, res, tier, seed):
         try:
             txt = unhexs(rq.split("\t")[1])[:300]
         except Exception:
-            txt = rq[:100]
+            txt = rq[:300]
         res.add_broken("correspondence model-vs-implementation (M-syntax: generated lexer/parser/tree-builder model vs parse_module)",
                        f"{len(res.disagreements)} disagreeing cases; first: text={txt!r} impl={a[:400]!r} model={b[:400]!r}")
 
